@@ -113,7 +113,10 @@ from .iter_elim import (
     index_access,
     is_access_path,
     may_mutate,
+    path_names,
     plan_for_zip,
+    stage_scopes,
+    unshadow,
 )
 
 
@@ -244,14 +247,16 @@ class _EnumerateElimInstance(DefaultTransformVisitor):
         new_iterables: list[Expr] = []
         subst: dict[NamedId, Expr] = {}
 
-        for target, iterable in zip(e.targets, e.iterables):
+        scopes = stage_scopes(e)
+        for target, iterable, captured in zip(e.targets, e.iterables, scopes):
             new_iter = self._visit_expr(iterable, ctx)
             # A later stage's iterable may reference an earlier stage's target
             # (`[... for i, x in enumerate(xs) for y in x]`), whose name no
             # longer exists once that stage is rewritten.
             if subst:
                 new_iter = SubstNames(subst)._visit_expr(new_iter, ctx)
-            rewritten = self._rewrite_comp_stage(target, new_iter, subst)
+            unshadow(subst, target)
+            rewritten = self._rewrite_comp_stage(target, new_iter, subst, captured)
             if rewritten is None:
                 new_targets.append(self._visit_binding(target, ctx))
                 new_iterables.append(new_iter)
@@ -272,6 +277,7 @@ class _EnumerateElimInstance(DefaultTransformVisitor):
         target: Id | TupleBinding,
         iterable: Expr,
         subst: dict[NamedId, Expr],
+        captured: set[NamedId],
     ) -> tuple[Id, Expr] | None:
         """The rewritten ``(target, iterable)`` for one comprehension stage,
         extending *subst* with the accessors its element slot needs; ``None``
@@ -289,7 +295,15 @@ class _EnumerateElimInstance(DefaultTransformVisitor):
         if not all(is_access_path(a) for a in plan.args):
             return None
 
+        # An accessor `src[i]` lands inside the stage's scope: a source name
+        # re-bound there cannot be inlined, and an index name re-bound there
+        # cannot be the counter (a fresh one counts, and stands in for it).
+        if any(n in captured for a in plan.args for n in path_names(a)):
+            return None
         idx = self._index_name(idx_slot)
+        if isinstance(idx_slot, NamedId) and idx_slot in captured:
+            idx = self.gensym.fresh('_i')
+            subst[idx_slot] = Var(idx, None)
         if plan.tupled:
             # A whole-element slot is a name or a discard, so no `fst`/`snd`
             # chain is involved and `comp_binding_is_pairs` has nothing to say.
